@@ -765,6 +765,8 @@ Definition step_core (fx : fixes) (cf : config) (st : state) (e : event) : state
   | EPushFail s t => let '(st1, r) := push_event st s t false (mk_push false false) in (st1, r, [])
   | EPushDone s t => let '(st1, r) := push_event st s t true (mk_push false false) in (st1, r, [])
   | ETick _ =>
+    if st_disposed st then (st, RBad, [])        (* Dispose made RunLoop (the ticker) return *)
+    else
     let '(gs, atts, cnt) := tick_groups (st_now st) (st_groups st) (st_atts st) (st_cnt st) in
     (st_set_atts (st_set_groups st gs) atts cnt, RNone, [])
   | EAdvance ms => (st_set_now st (st_now st + ms)%Z, RNone, [])
